@@ -277,6 +277,22 @@ theorem C15_peer_certs_exposed (inner : InnerInfo) (sessionPeer : Option Chain) 
     (Request.peerCerts e = sessionPeer ∨ Request.peerCerts e = none) := by
   cases inner <;> simp [extensionsTlsIo, tlsStreamConnectInfo, Request.tlsInfoCerts, Request.peerCerts]
 
+/-- The same when the application accepted TLS itself and hands `TlsStream<T>`s to a tonic
+server without `tls_config` (`impl Connected for TlsStream<T>`): the handler still finds the
+session's chain, and `Request::peer_certs()` agrees over TCP. -/
+theorem C15_peer_certs_exposed_user_accepted (inner : InnerInfo) (sessionPeer : Option Chain) :
+    let e := extensionsUserTls (tlsStreamConnectInfo inner sessionPeer)
+    Request.tlsInfoCerts e = some sessionPeer ∧
+    (inner = .tcp → Request.peerCerts e = sessionPeer) ∧
+    (Request.peerCerts e = sessionPeer ∨ Request.peerCerts e = none) := by
+  cases inner <;> simp [extensionsUserTls, tlsStreamConnectInfo, Request.tlsInfoCerts, Request.peerCerts]
+
+/-- Without TLS on the connection there is nothing to expose: `peer_certs()` is `None`. -/
+theorem C15_no_peer_certs_without_tls (inner : InnerInfo) :
+    Request.peerCerts (extensionsPlain (Chain := Chain) inner) = none ∧
+    Request.tlsInfoCerts (extensionsPlain (Chain := Chain) inner) = none := by
+  simp [extensionsPlain, Request.peerCerts, Request.tlsInfoCerts]
+
 /-! ### end to end: one call -/
 
 /-- **A handler runs only for an authenticated, h2, TLS-protected call.** For every builder
